@@ -106,6 +106,10 @@ TimeVerdict(r, o) ==
 InputVerdicts(r) ==
   LET o == r.obs IN
   (IF Has(o, "in_after") /\ Has(o, "ast0") /\ o.in_after # o.ast0 THEN {V(FALSE, "input-mutated", "the expression given to Reduce")} ELSE {})
+  \* other entry points fold the same way: SelectStatement.Reduce on a statement holding the expression as its condition,
+  \* a valuer derived from a base that was then extended a second time
+  \cup (IF Has(o, "stmt_red") /\ Has(o, "red") /\ o.stmt_red # o.red THEN {V(FALSE, "entry-point-differs", "SelectStatement.Reduce")} ELSE {})
+  \cup (IF Has(o, "multi_red") /\ Has(o, "red") /\ o.multi_red # o.red THEN {V(FALSE, "entry-point-differs", "a derived MultiValuer")} ELSE {})
   \cup (IF Has(o, "red_after") /\ Has(o, "red") /\ o.red_after # o.red THEN {V(FALSE, "input-mutated", "a reduced tree reduced again")} ELSE {})
   \cup (IF ~Has(o, "staged") THEN {}
         ELSE LET sg == o.staged IN
